@@ -20,3 +20,15 @@ Proof.
     + destruct (String.eqb k' k2); [reflexivity|exact IH].
 Qed.
 Print Assumptions C14_assign_other.
+
+(* the delegated per-vehicle step (greedy / balanced) is local: it touches only the vehicle's own connector, station and
+   vehicle entry — every other connector keeps loads, limit, cost and supporting-battery budget (any number type) *)
+From SV Require Import Battery StratLocal.
+Theorem C14_vehicle_step_local : forall T (N:Num T) (s:strat) (o:@sopts T) w cmds avail vid w' cmds' avail',
+  @vehicle_step T N s o (w, cmds, avail) vid = Ok (w', cmds', avail') ->
+  exists g0 c0, (forall g, g <> g0 -> Strat.lookup g (sw_gcs w') = Strat.lookup g (sw_gcs w) /\ Strat.lookup g avail' = Strat.lookup g avail) /\
+                (forall c, c <> c0 -> Strat.lookup c (sw_css w') = Strat.lookup c (sw_css w) /\ Strat.lookup c cmds' = Strat.lookup c cmds) /\
+                (forall v, v <> vid -> Strat.lookup v (sw_veh w') = Strat.lookup v (sw_veh w)) /\
+                sw_bats w' = sw_bats w /\ sw_order w' = sw_order w.
+Proof. intros T N. exact (@vehicle_step_local T N). Qed.
+Print Assumptions C14_vehicle_step_local.
